@@ -707,7 +707,9 @@ def _get_fcp(
         return _lark_error(logger, filename, source, e)
 
     parser_context = ParserContext()
-    parser_context.importing.append(filename.resolve())
+    if isinstance(filesystem_proxy, FileSystemProxy):
+        # text parsed from a string is no file on disk that a module could import back
+        parser_context.importing.append(filename.resolve())
 
     try:
         fcp = FcpV2Transformer(
